@@ -111,3 +111,74 @@ Proof.
   intros fuel. apply (arrays_beyond_never_terminates ex_file);
     first [apply wf_fileb_ok; vm_compute; reflexivity | reflexivity | (intros; apply Permutation_refl) | (cbn; lia)].
 Qed.
+
+(* ---------------------------------------------------------------- concatenate_raw(<pattern>): the listing order is irrelevant *)
+From Coq Require Import Sorted.
+Definition name_le (a b : Z * list Z) : Prop := fst a <= fst b.
+Lemma insert_by_name_perm x l : Permutation (insert_by_name x l) (x :: l).
+Proof.
+  induction l as [|y t IH]; cbn [insert_by_name]; [apply Permutation_refl|].
+  destruct (fst x <=? fst y); [apply Permutation_refl|].
+  eapply perm_trans; [apply perm_skip; exact IH|apply perm_swap].
+Qed.
+Lemma sort_by_name_perm l : Permutation (sort_by_name l) l.
+Proof.
+  induction l as [|x t IH]; [apply perm_nil|]. cbn [sort_by_name fold_right].
+  eapply perm_trans; [apply insert_by_name_perm|apply perm_skip; exact IH].
+Qed.
+Lemma insert_by_name_sorted x l : StronglySorted name_le l -> StronglySorted name_le (insert_by_name x l).
+Proof.
+  induction l as [|y t IH]; intros Hs; cbn [insert_by_name].
+  - constructor; constructor.
+  - destruct (Z.leb_spec (fst x) (fst y)) as [Hle|Hgt].
+    + constructor; [exact Hs|]. constructor; [exact Hle|].
+      apply StronglySorted_inv in Hs. destruct Hs as [_ Hall].
+      rewrite Forall_forall in *. intros z Hz. specialize (Hall z Hz). unfold name_le in *. lia.
+    + apply StronglySorted_inv in Hs. destruct Hs as [Ht Hall]. constructor; [apply IH; exact Ht|].
+      rewrite Forall_forall in *. intros z Hz.
+      apply (Permutation_in _ (insert_by_name_perm x t)) in Hz. destruct Hz as [<-|Hz]; [unfold name_le; lia|apply Hall; exact Hz].
+Qed.
+Lemma sort_by_name_sorted l : StronglySorted name_le (sort_by_name l).
+Proof. induction l as [|x t IH]; [constructor|]. cbn [sort_by_name fold_right]. apply insert_by_name_sorted. exact IH. Qed.
+Lemma same_name_same_file (l : list (Z * list Z)) a b : NoDup (map fst l) -> In a l -> In b l -> fst a = fst b -> a = b.
+Proof.
+  induction l as [|c t IH]; intros Hnd Ha Hb Hab; [destruct Ha|].
+  cbn [map] in Hnd. apply NoDup_cons_iff in Hnd. destruct Hnd as [Hc Hnd].
+  destruct Ha as [<-|Ha], Hb as [<-|Hb]; try reflexivity.
+  - exfalso. apply Hc. rewrite Hab. apply in_map. exact Hb.
+  - exfalso. apply Hc. rewrite <- Hab. apply in_map. exact Ha.
+  - apply IH; assumption.
+Qed.
+Lemma sorted_perm_unique : forall l1 l2, StronglySorted name_le l1 -> StronglySorted name_le l2 -> Permutation l1 l2 ->
+  NoDup (map fst l1) -> l1 = l2.
+Proof.
+  induction l1 as [|a t1 IH]; intros l2 H1 H2 Hp Hnd.
+  - apply Permutation_nil in Hp. symmetry. exact Hp.
+  - destruct l2 as [|b t2]; [apply Permutation_sym, Permutation_nil in Hp; discriminate|].
+    assert (Hab : a = b).
+    { apply (same_name_same_file (a :: t1)); [exact Hnd|left; reflexivity|apply (Permutation_in _ (Permutation_sym Hp)); left; reflexivity|].
+      apply StronglySorted_inv in H1. destruct H1 as [_ A1]. apply StronglySorted_inv in H2. destruct H2 as [_ A2].
+      rewrite Forall_forall in A1, A2.
+      assert (Hb : In b (a :: t1)) by (apply (Permutation_in _ (Permutation_sym Hp)); left; reflexivity).
+      assert (Ha : In a (b :: t2)) by (apply (Permutation_in _ Hp); left; reflexivity).
+      assert (L1 : fst a <= fst b) by (destruct Hb as [<-|Hb]; [lia|apply (A1 b Hb)]).
+      assert (L2 : fst b <= fst a) by (destruct Ha as [<-|Ha]; [lia|apply (A2 a Ha)]).
+      lia. }
+    subst b. f_equal. apply IH.
+    + apply StronglySorted_inv in H1. apply H1.
+    + apply StronglySorted_inv in H2. apply H2.
+    + apply Permutation_cons_inv in Hp. exact Hp.
+    + cbn [map] in Hnd. apply NoDup_cons_iff in Hnd. apply Hnd.
+Qed.
+Lemma sort_by_name_listing_order l1 l2 : Permutation l1 l2 -> NoDup (map fst l1) -> sort_by_name l1 = sort_by_name l2.
+Proof.
+  intros Hp Hnd. apply sorted_perm_unique; try apply sort_by_name_sorted.
+  - eapply perm_trans; [apply sort_by_name_perm|]. eapply perm_trans; [exact Hp|apply Permutation_sym, sort_by_name_perm].
+  - eapply Permutation_NoDup; [|exact Hnd]. apply Permutation_map, Permutation_sym, sort_by_name_perm.
+Qed.
+Lemma concatenate_pattern_listing_order chk lfix l1 l2 pb names : Permutation l1 l2 -> NoDup (map fst l1) ->
+  concatenate_pattern chk lfix l1 pb names = concatenate_pattern chk lfix l2 pb names.
+Proof. intros Hp Hnd. unfold concatenate_pattern. rewrite (sort_by_name_listing_order l1 l2 Hp Hnd). reflexivity. Qed.
+(* ... and it is the files in name order: the sorted listing is sorted and holds exactly the listed files *)
+Lemma concatenate_pattern_name_order listing : StronglySorted name_le (sort_by_name listing) /\ Permutation (sort_by_name listing) listing.
+Proof. split; [apply sort_by_name_sorted|apply sort_by_name_perm]. Qed.
